@@ -20,7 +20,7 @@ from . import _an as A
 PROP = "C05"
 # obligations of the properties this one is downstream of are obligations of this check too (vk.runner.collect_obligations)
 UPSTREAM = ["C01"]
-GEN_REGIONS = ["CoreKernels", "Analysis", "Utils", "CudaKernels", "LpsdCore", "NumpyKernels"]
+GEN_REGIONS = ["CoreKernels", "Analysis", "Utils", "CudaKernels", "LpsdCore", "NumpyKernels", "EntryPoints"]
 THEOREMS = {
     # the request arithmetic of compute_single_bin as translated each run IS the model (segmentation) / the requested frequency (omega)
     "SpecKitV.Props.AnalysisGen": ["gen_single_bin_seg_eq_model", "gen_single_bin_omega_eq"],
@@ -51,6 +51,13 @@ THEOREMS = {
         "LpsdCoreGen.gen_single_bin_section_all_backends"],
     "SpecKitV.Props.C05": ["lpsdCore_eq_ref_cross", "lpsdCore_eq_ref_auto", "lpsdCore_bin_local", "lpsdCore_band", "winSums_spec", "lpsdCore_single",
                            "lpsdCore_order1_add_line_auto", "lpsdCore_order1_add_line_cross"],
+    # region EntryPoints: what the result object stores (D is ALWAYS one start vector per bin, every field value-preserved, nf = len f), the public
+    # wrappers = analyzer construction + method, the backend decision table, the starts bounds check; and the per-bin loop instantiated with the
+    # TRANSLATED backend decision
+    "SpecKitV.Props.EntryPointsGen": ["EPG.gen_result_init_eq_model", "EPG.gen_result_D_rows", "EPG.gen_result_nf", "EPG.gen_result_float_preserved",
+                                      "EPG.gen_result_int_preserved", "EPG.gen_result_XY_preserved", "EPG.gen_entry_points_forward",
+                                      "EPG.gen_select_backend_table", "EPG.gen_check_starts_bounds_iff"],
+    "SpecKitV.Props.EntryPointsLpsd": ["EPLpsd.gen_lpsd_core_translated_backend", "EPLpsd.selTranslated_names"],
 }
 CONTRACTS = [
     "np.kaiser(L+1, beta)[:-1] is the DFT-even Kaiser window n -> I0(beta*sqrt(1-((n-L/2)/(L/2))^2))/I0(beta): NumPy's I0 is compared each run "
